@@ -32,6 +32,7 @@ def _init(modname, width, query_timeout_ms):
         rt.set_width(width)
     rt.install()
     rt.ENGINE.timeout_ms = query_timeout_ms
+    _W["width"] = width or 256
     _W["mod"] = importlib.import_module("vf.harness." + modname)
     _W["kf"] = core.KnownFindings(os.path.join(ROOT, "known_findings.json"))
     _W["seen_funcs"] = set()
@@ -44,6 +45,7 @@ def _work(job):
     idx, case, opts = job
     mod = _W["mod"]
     make = getattr(mod, case.get("make", "make"))
+    rt.set_width(case.get("width", _W["width"]))
     try:
         res = core.explore_case(mod.PROPERTY, make, case, _W["kf"], max_paths=opts["max_paths"],
                                 witness_every=opts["witness_every"], time_budget=opts["case_budget"])
